@@ -288,9 +288,9 @@ def storeResponse (p : Parser β) : Dec β where
 
 /-! ### `reserve` on a length taken from the wire -/
 
-/-- Size from which the harness' allocator refuses a single allocation (256 MiB; a deterministic stand-in for
+/-- Size from which the harness' allocator refuses a single allocation (293 000 000 bytes; a deterministic stand-in for
 "more than the machine has"): such a reservation cannot be satisfied and the process aborts. -/
-notation "ALLOC_LIMIT" => (268435456 : Nat)
+notation "ALLOC_LIMIT" => (293000000 : Nat)
 notation "ISIZE_MAX1" => (9223372036854775808 : Nat)
 
 inductive ReserveOut | ok | panic | abort
